@@ -21,7 +21,9 @@ RULE = ("2-4-d fields with distinct integer data, anisotropic counts and dyadic 
         "compared on every returned object. non-trivial = k mod 4 != 0 and at least two cells along one rotated axis")
 TRUSTED = ["harness/c12.py, harness/tcommon.py + driver JSON glue", "np.rot90 modelled by its flip/transpose definition"]
 ASSUMPTIONS = ["float cos/sin(k*pi/2) within 2^-50 of the exact integers (2^-36 relative bound on values, 2^-40 on corners)"]
-UNPROVED = []
+UNPROVED = ["bc letters under composed turns: rotBc(rotBc bc k) l = rotBc bc (k+l) is proved only for the non-periodic conditions (mesh_inverse / mesh_compose_copy carry a PlainBc clause); for periodic bc the composed meshes are proved equal on region, counts and subregions only",
+            "field-level composition is proved on the arrays (field_compose_arrays, any reference points) and as k then -k on the whole field (field_inverse); the mesh of a field turned by k then l vs k+l is covered by mesh_compose_copy only when all three constructor calls are accepted",
+            "vector values after k then -k are proved equal to the original only for values in which the two mapped components are distinct positions inside the value (hypothesis of rotVec_compose); the model does not tie len(value) to nvdim"]
 BUDGET = {"quick": 90, "thorough": 900}
 
 
